@@ -1050,6 +1050,9 @@ func (e *Engine) valuesEq(a, b Value) *Term {
 			if x.Atom != nil && y.Atom != nil && x.Pre == y.Pre && x.Suf == y.Suf {
 				return Eq(x.Atom, y.Atom)
 			}
+			if r := e.atomEqBytes(x, y); r != nil {
+				return r
+			}
 			return Eq(e.strID(x), e.strID(y))
 		}
 		if len(x.Bytes) != len(y.Bytes) {
@@ -1110,6 +1113,72 @@ func (e *Engine) valuesEq(a, b Value) *Term {
 	return nil
 }
 
+// atomEqBytes: equality between an atom that has only concrete members and a symbolic-bytes string:
+// OR over the members c of (atom is c AND bytes spell c). nil when the shape does not apply.
+func (e *Engine) atomEqBytes(x, y StringVal) *Term {
+	if x.Atom == nil {
+		x, y = y, x
+	}
+	if x.Atom == nil || y.Atom != nil || x.Others != 0 || x.Pre != "" || x.Suf != "" {
+		return nil
+	}
+	if _, conc := y.Concrete(); conc {
+		return nil
+	}
+	var alts []*Term
+	for _, c := range x.Cands {
+		if len(c) != len(y.Bytes) {
+			continue
+		}
+		cs := []*Term{Eq(x.Atom, ConstInt(int64(e.intern(c))))}
+		for i := range y.Bytes {
+			cs = append(cs, Eq(y.Bytes[i], ConstBV(uint64(c[i]), 8)))
+		}
+		alts = append(alts, And(cs...))
+	}
+	return Or(alts...)
+}
+
+// atomLess: x < y when at least one side is an atom. Only atoms whose members are all concrete are ordered (the
+// rank of a member is its position in the sorted union of both sides' members); anonymous members have no order.
+func (e *Engine) atomLess(x, y StringVal) *Term {
+	members := func(s StringVal) []string {
+		if s.Atom == nil {
+			c, ok := s.Concrete()
+			if !ok {
+				unsupported("ordering between an atom and a symbolic-bytes string")
+			}
+			return []string{c}
+		}
+		if s.Others != 0 || s.Pre != "" || s.Suf != "" {
+			unsupported("ordering (<) of an atom with anonymous members or decorations")
+		}
+		return s.Cands
+	}
+	mx, my := members(x), members(y)
+	all := append(append([]string(nil), mx...), my...)
+	sort.Strings(all)
+	rank := func(s StringVal, ms []string) *Term {
+		pos := func(c string) int64 { return int64(sort.SearchStrings(all, c)) }
+		if s.Atom == nil {
+			return ConstInt(pos(ms[0]))
+		}
+		r := ConstInt(-1)
+		for _, c := range ms {
+			r = Ite(Eq(s.Atom, ConstInt(int64(e.intern(c)))), ConstInt(pos(c)), r)
+		}
+		return r
+	}
+	return IntCmp("<", rank(x, mx), rank(y, my))
+}
+
+func (e *Engine) stringLess(x, y StringVal) *Term {
+	if x.Atom != nil || y.Atom != nil {
+		return e.atomLess(x, y)
+	}
+	return stringLess(x, y)
+}
+
 func stringLess(x, y StringVal) *Term {
 	// lexicographic: exists i: prefix equal and x[i] < y[i], or x is a proper prefix of y
 	n := len(x.Bytes)
@@ -1154,13 +1223,13 @@ func (e *Engine) binop(st *State, op token.Token, a, b Value, typ types.Type) Va
 			}
 			return StringVal{Bytes: append(append([]*Term(nil), sa.Bytes...), sb.Bytes...)}
 		case token.LSS:
-			return stringLess(sa, sb)
+			return e.stringLess(sa, sb)
 		case token.GTR:
-			return stringLess(sb, sa)
+			return e.stringLess(sb, sa)
 		case token.LEQ:
-			return Not(stringLess(sb, sa))
+			return Not(e.stringLess(sb, sa))
 		case token.GEQ:
-			return Not(stringLess(sa, sb))
+			return Not(e.stringLess(sa, sb))
 		}
 	}
 	if fa, ok := a.(FloatVal); ok {
